@@ -417,3 +417,21 @@ class Pred(object):
             return True
         self.log.ev("sel", self.name, t.serial)
         return self.ok(t.serial)
+
+
+class Unprintable(object):
+    """an object that cannot be formatted: passing it on must not try to"""
+
+    def __init__(self, n):
+        self.n = n
+
+    def __repr__(self):
+        raise RuntimeError("repr of a value that was only to be passed on was asked for")
+
+    __str__ = __repr__
+
+    def __format__(self, spec):
+        raise RuntimeError("format of a value that was only to be passed on was asked for")
+
+    def _sim_summary(self):
+        return ("Unprintable", self.n)
